@@ -847,7 +847,7 @@ class PDFDocument:
             if settings.STRICT:
                 raise PDFSyntaxError("Not a stream object: %r" % stream)
         try:
-            n = cast(int, stream["N"])
+            n = max(0, int_value(stream["N"]))
         except KeyError:
             if settings.STRICT:
                 raise PDFSyntaxError("N is not defined: %r" % stream)
